@@ -37,7 +37,7 @@ def insJson : Ins → Json
     such value `Authority::try_from` rejects). -/
 def routeJson (gs : List (List Char)) (h : List Char) : Json :=
   let o := route gs h
-  if o.ins.any (· == .panic) then Json.mkObj [("r", "panic"), ("msg", "Too many route parameters.")]
+  if o.panics then Json.mkObj [("r", "panic"), ("msg", "Too many route parameters.")]
   else
     let noHost := h.isEmpty
     Json.mkObj [
